@@ -53,6 +53,7 @@ Definition js_stmt_text (fm : bool) (en : env) (props : list string) (s : stmt) 
   | SSetAcc _ _ _ => ""      (* outside the JavaScript theorems, like EAcc *)
   | SSetMenu pid it mn v => pp_js (to_js fm en (EMenu pid it mn)) ++ " = " ++ pp_js (to_js fm en v)
   | SExit => "exit()"
+  | SPutField _ _ _ | SPutLoc _ _ _ => ""     (* put ... into / after / before: outside the JavaScript theorems *)
   end.
 
 Definition js_ok_s (en : env) (props : list string) (s : stmt) : Prop :=
@@ -71,6 +72,7 @@ Definition js_ok_s (en : env) (props : list string) (s : stmt) : Prop :=
   | SSetAcc _ _ _ => False
   | SSetMenu pid it mn v => js_ok en (EMenu pid it mn) /\ js_ok en v
   | SExit => True
+  | SPutField _ _ _ | SPutLoc _ _ _ => False
   end.
 
 Lemma js_args_text fm en l : js_ok_args en l -> forall pc ind,
@@ -85,7 +87,7 @@ Qed.
 Theorem js_stmt_line fm en props s : js_ok_s en props s -> forall pc ind,
   gen_js (reify_s en props pc s) ind fm = js_line ind (js_stmt_text fm en props s).
 Proof.
-  destruct s as [t e|f args|f args|fam pid o v|tk ti tv|an ao av|mp mi mm mv|]; intros Hok pc ind; [| | | | |destruct Hok| |destruct fm; reflexivity].
+  destruct s as [t e|f args|f args|fam pid o v|tk ti tv|an ao av|mp mi mm mv| |pmd pf pv|lmd li lv]; intros Hok pc ind; [| | | | |destruct Hok| |destruct fm; reflexivity|destruct Hok|destruct Hok].
   6:{ destruct Hok as (Hk & Hv). cbn [reify_s js_stmt_text].
       pose proof (gen_js_is_pp fm en (EMenu mp mi mm) Hk pc ind) as Hl. cbn [reify_e] in Hl.
       assert (Hl' : forall p1 p2 l r ls rs, gen_js l ind fm = ls -> gen_js r ind fm = rs ->
